@@ -80,8 +80,15 @@ def run_unit(arg):
             out["unsupported"] = "call inside a dropped print is not on the whitelist: %r" % (exf.unsupported_prints,)
             out["obligations"] = []
             return out
-        node = exf.function(prof["cls"], fname)
         con = lib.contracts[cls][fname]
+        src = getattr(con, "source", None)
+        if src:
+            exf = extract.load(src[0])
+            out["file"] = src[0]
+            out["sha"] = exf.sha
+            node = exf.function(src[1], fname)
+        else:
+            node = exf.function(prof["cls"], fname)
         r = verify_function(lib, cls, fname, node, con, timeout_ms=timeout_ms, want_models=want_models, shard=shard,
                             carve=carve)
         out["shard"] = list(shard) if shard else None
